@@ -460,6 +460,8 @@ extern (*FunctionValidator).isBuiltinFunction
 func (*FunctionValidator).isKeyword
   props C11
   option safety
+  ensures the-words-of-the-language-that-may-stand-before-a-parenthesis-are-never-taken-for-function-names: strings.ToUpper(word) == "NOT" || strings.ToUpper(word) == "AND" || strings.ToUpper(word) == "OR" || strings.ToUpper(word) == "IN" || strings.ToUpper(word) == "LIKE" || strings.ToUpper(word) == "IS" || strings.ToUpper(word) == "WHERE" || strings.ToUpper(word) == "HAVING" || strings.ToUpper(word) == "WHEN" || strings.ToUpper(word) == "THEN" || strings.ToUpper(word) == "ELSE" || strings.ToUpper(word) == "CASE" || strings.ToUpper(word) == "SELECT" || strings.ToUpper(word) == "BY" || strings.ToUpper(word) == "AS" || strings.ToUpper(word) == "BETWEEN" || strings.ToUpper(word) == "DISTINCT" ==> result
+  loop 1 invariant forall(j, 0, $i, wordUpper != $s[j]) && wordUpper == strings.ToUpper(word) && $s == keywords
 
 func (*FunctionValidator).ValidateExpression
   props C11
@@ -1032,9 +1034,12 @@ func (*Parser).Parse
 
 // AST -> configuration: outside the functions under contract (regular-expression based helpers in ast.go); only
 // its frame is assumed here. Its own totality is NOT proved.
-extern (*SelectStatement).ToStreamConfig
-  props C11 C01 C04 C07 C14
+func (*SelectStatement).ToStreamConfig
+  props C11 C01 C04 C07 C14 C09 C10 C17
+  option assumed_frame
   modifies *
+  atreturn a-keyed-window-is-keyed-by-every-group-by-item-function-keys-included: result2 == nil && result0 != nil ==> forall(k, 0, len(s.GroupBy), !isAggregationFunction(s.GroupBy[k]) ==> exists(j, 0, len(result0.WindowConfig.GroupByKeys), result0.WindowConfig.GroupByKeys[j] == s.GroupBy[k]))
+  atreturn the-aggregator-groups-by-every-group-by-item-function-keys-included: result2 == nil && result0 != nil ==> forall(k, 0, len(s.GroupBy), !isAggregationFunction(s.GroupBy[k]) ==> exists(j, 0, len(result0.GroupFields), result0.GroupFields[j] == s.GroupBy[k]))
 
 extern groupKeyIsScalarFunctionExpr
   props C11 C01 C04 C07 C14
